@@ -205,27 +205,56 @@ class Session:
 # canonical form
 
 
-def walk(o: Any, sort_dicts: bool = False) -> Any:
+def walk(o: Any, sort_dicts: bool = False, _path: tuple = ()) -> Any:
     if o is None or isinstance(o, (bool, int, float, str, bytes)):
         return (type(o).__name__, o)
     extra = ()
     if type(o) not in (dict, list, tuple, set, frozenset) and isinstance(o, (dict, list, tuple, set, frozenset)) and hasattr(o, "__dict__"):
         # a container subclass may carry state of its own (e.g. a registry that tracks its highest id)
-        extra = (("__attrs__", tuple(sorted((k, walk(v, sort_dicts)) for k, v in vars(o).items()))),)
+        extra = (("__attrs__", tuple(sorted((k, walk(v, sort_dicts, _path)) for k, v in vars(o).items()))),)
     if isinstance(o, dict):
-        items = [(walk(k, sort_dicts), walk(v, sort_dicts)) for k, v in o.items()]
+        items = [(walk(k, sort_dicts, _path), walk(v, sort_dicts, _path)) for k, v in o.items()]
         if sort_dicts:
             items.sort(key=repr)
         return ("dict", tuple(items)) + extra
     if isinstance(o, (list, tuple)):
-        return (type(o).__name__, tuple(walk(x, sort_dicts) for x in o)) + extra
+        return (type(o).__name__, tuple(walk(x, sort_dicts, _path) for x in o)) + extra
     if isinstance(o, (set, frozenset)):
-        return ("set", tuple(sorted((walk(x, sort_dicts) for x in o), key=repr))) + extra
+        return ("set", tuple(sorted((walk(x, sort_dicts, _path) for x in o), key=repr))) + extra
     if isinstance(o, types.ModuleType):
         return ("module", o.__name__)
+    if isinstance(o, (type, types.FunctionType, types.MethodType, types.BuiltinFunctionType)):
+        return ("callable", getattr(o, "__module__", ""), getattr(o, "__qualname__", repr(o)))
     if hasattr(o, "__dict__"):
-        return (type(o).__name__, tuple(sorted((k, walk(v, sort_dicts)) for k, v in vars(o).items())))
+        m = _marshmallow_view(o, sort_dicts, _path)
+        if m is not None:
+            return m
+        if id(o) in _path:
+            return ("cycle", type(o).__name__)  # e.g. a marshmallow schema: field.parent points back at it
+        if len(_path) > 40:
+            return ("deep", type(o).__name__)
+        p2 = _path + (id(o),)
+        return (type(o).__name__, tuple(sorted((k, walk(v, sort_dicts, p2)) for k, v in vars(o).items())))
     return ("repr", repr(o))
+
+
+def _vname(v: Any) -> str:
+    return getattr(v, "__qualname__", None) or (type(v).__name__ + repr(sorted((k, repr(x)) for k, x in vars(v).items() if not callable(x))) if hasattr(v, "__dict__") else type(v).__name__)
+
+
+def _marshmallow_view(o: Any, sort_dicts: bool, _path: tuple) -> Any:
+    """Marshmallow schemas and fields are big cyclic object graphs (field.parent -> schema); what a library can
+    change about them at run time is the context, the set of fields and each field's validators / flags."""
+    import marshmallow
+
+    if isinstance(o, marshmallow.Schema):
+        fields = getattr(o, "fields", None) or {}
+        return ("schema", type(o).__name__, walk(getattr(o, "context", None), sort_dicts, _path + (id(o),)),
+                tuple((n, _marshmallow_view(f, sort_dicts, _path)) for n, f in fields.items()))
+    if isinstance(o, marshmallow.fields.Field):
+        return ("field", type(o).__name__, tuple(_vname(v) for v in getattr(o, "validators", ())),
+                bool(getattr(o, "required", False)), bool(getattr(o, "allow_none", False)), repr(getattr(o, "load_default", None))[:60])
+    return None
 
 
 def canon_nodes(nodes: dict) -> Any:
